@@ -12,6 +12,7 @@ ROOT = os.path.dirname(os.path.dirname(os.path.abspath(__file__)))
 
 
 FRAME_CHECK = True
+MAX_REPLAYS = 40
 UNIT_BUDGET = [float(os.environ.get("PYVC_UNIT_BUDGET", "240"))]
 
 
@@ -160,6 +161,9 @@ class Report:
                 known_hits.append((hit, ob))
                 continue
             rep = None
+            if len(violations) >= MAX_REPLAYS:
+                violations.append((ob, {"reproduced": None, "note": f"not replayed: more than {MAX_REPLAYS} violations in this run"}))
+                continue
             if ob.get("kind") == "frame" and ob.get("backend") == "evaluation":
                 # observed on the real objects while the real code ran: the changed state is the witness
                 rep = {"reproduced": True, "input": {"unit": ob["name"].rsplit("/FRAME", 1)[0]}, "changed_state": ob.get("site"), "detail": ob.get("detail")}
